@@ -1,4 +1,5 @@
 ----------------------------- MODULE APA_ScenarioStore -----------------------------
+\* COVERS: {"mc": "MC_ScenarioStore", "actions": ["AddObj", "AddNet", "Replace", "AddList", "RemoveSimple", "RemoveLanelet", "RemoveAbsent", "Erase", "Gen"], "devs": ["DEV_ListRemoveInterKeepsIncoming", "DEV_PartialIntersection", "DEV_PartialNetwork", "DEV_AddNetOnNonEmpty", "DEV_HangingFreesNamedIds"], "tokens": ["LA", "LB", "LC", "LD", "SA", "SB", "TA", "XA", "XB", "OS", "OD", "OP", "OE", "OQ", "NA", "NB", "NC"]}
 (* C09, UNBOUNDED histories: typed (Apalache) transcription of MC_ScenarioStore + the operators of      *)
 (* ScenarioStore it uses, WITHOUT MaxGen (generate_object_id may be called any number of times, the      *)
 (* counter is an unbounded integer) and without the TLC-only parts (Json, Emit, View).                   *)
@@ -18,7 +19,7 @@
 (*   (3')  IndInv /\ Next => PropAct       --init=IndInit --inv=PropAct --length=1   GenFresh, RejectAtomic       *)
 (*   (3'') IndInv /\ NextRef => refOk'     --init=IndInit --next=NextRef --inv=InvRefines --length=1  (optional,   *)
 (*         slow: Impl => Contract for every step from every IndInv state)                                        *)
-(* Deviation constants are chosen by --cinit (CInit: all FALSE; CInitDev1..4: exactly one TRUE).                 *)
+(* Deviation constants are chosen by --cinit (CInit: all FALSE; CInitDev1..5: exactly one TRUE).                 *)
 EXTENDS Integers, Sequences, FiniteSets, Apalache
 
 (*
@@ -38,6 +39,8 @@ CONSTANTS
     DEV_PartialNetwork,
     \* @type: Bool;
     DEV_AddNetOnNonEmpty,
+    \* @type: Bool;
+    DEV_HangingFreesNamedIds,
     \* the token table and two projections of it; CONSTANTS (initialised by TokInit inside every CInit*) so that the
     \* symbolic encoding builds each table once instead of once per mention
     \* @type: Str -> $tok;
@@ -51,7 +54,7 @@ CONSTANTS
 \* @type: (Str, Int, Seq(Int), Set(Int), Set(Int), Int, Seq(Str)) => $tok;
 T(k, id, inc, sg, lt, tag, ord) ==
     [k |-> k, id |-> id, inc |-> inc, sg |-> sg, lt |-> lt, tag |-> tag, ord |-> ord]
-Names == {"LA", "LB", "LC", "LD", "SA", "SB", "TA", "XA", "XB", "OS", "OD", "OP", "OE", "NA", "NB", "NC"}
+Names == {"LA", "LB", "LC", "LD", "SA", "SB", "TA", "XA", "XB", "OS", "OD", "OP", "OE", "OQ", "NA", "NB", "NC"}
 \* @type: Str -> $tok;
 TokTable == [n \in Names |->
     CASE n = "LA" -> T("lanelet", 1, <<>>, {}, {}, 0, <<>>)
@@ -67,6 +70,7 @@ TokTable == [n \in Names |->
       [] n = "OD" -> T("dynamic", 7, <<>>, {}, {}, 0, <<>>)
       [] n = "OP" -> T("phantom", 1, <<>>, {}, {}, 0, <<>>)
       [] n = "OE" -> T("env", 6, <<>>, {}, {}, 0, <<>>)
+      [] n = "OQ" -> T("static", 4, <<>>, {}, {}, 0, <<>>)      \* holds the id that LC / LD name as a sign (dangling reference)
       [] n = "NA" -> T("network", 0, <<>>, {}, {}, 0, <<"LA", "LC", "SA", "TA", "XA">>)
       [] n = "NB" -> T("network", 0, <<>>, {}, {}, 0, <<"LD", "SB">>)
       [] OTHER    -> T("network", 0, <<>>, {}, {}, 0, <<"LA", "LC", "SB">>)]      \* NC
@@ -77,13 +81,14 @@ TokInit == /\ Tok = TokTable
            /\ IDS = [n \in Names |-> {Tok[n].id} \cup Range(Tok[n].inc)]
            /\ KIND = [n \in Names |-> Tok[n].k]
 
-Dev(a, b, c, d) == /\ TokInit /\ DEV_ListRemoveInterKeepsIncoming = a /\ DEV_PartialIntersection = b
-                   /\ DEV_PartialNetwork = c /\ DEV_AddNetOnNonEmpty = d
-CInit     == Dev(FALSE, FALSE, FALSE, FALSE)
-CInitDev1 == Dev(TRUE, FALSE, FALSE, FALSE)
-CInitDev2 == Dev(FALSE, TRUE, FALSE, FALSE)
-CInitDev3 == Dev(FALSE, FALSE, TRUE, FALSE)
-CInitDev4 == Dev(FALSE, FALSE, FALSE, TRUE)
+Dev(a, b, c, d, e) == /\ TokInit /\ DEV_ListRemoveInterKeepsIncoming = a /\ DEV_PartialIntersection = b
+                      /\ DEV_PartialNetwork = c /\ DEV_AddNetOnNonEmpty = d /\ DEV_HangingFreesNamedIds = e
+CInit     == Dev(FALSE, FALSE, FALSE, FALSE, FALSE)
+CInitDev1 == Dev(TRUE, FALSE, FALSE, FALSE, FALSE)
+CInitDev2 == Dev(FALSE, TRUE, FALSE, FALSE, FALSE)
+CInitDev3 == Dev(FALSE, FALSE, TRUE, FALSE, FALSE)
+CInitDev4 == Dev(FALSE, FALSE, FALSE, TRUE, FALSE)
+CInitDev5 == Dev(FALSE, FALSE, FALSE, FALSE, TRUE)
 
 
 VARIABLES
@@ -276,8 +281,12 @@ RemoveSimple(chk, op, kinds, ns, q, list) ==
 
 RemoveLanelet(chk, Ls, q, ref) ==
     LET h == IF ref THEN Hanging(s, Ls, "sign", s.sg) \cup Hanging(s, Ls, "light", s.lt) ELSE {}
+        rem == (Lanelets \cap s.C) \ Ls
+        named == ((UNION {s.sg[n] : n \in Ls}) \ (UNION {s.sg[n] : n \in rem}))
+                 \cup ((UNION {s.lt[n] : n \in Ls}) \ (UNION {s.lt[n] : n \in rem}))
     IN /\ Ls \subseteq s.C /\ \A n \in Ls : KIND[n] = "lanelet"
-       /\ s' = RemoveState(s, Ls \cup h) /\ idSet' = idSet \ Release(Ls \cup h, TRUE) /\ UNCHANGED cnt
+       /\ s' = RemoveState(s, Ls \cup h) /\ UNCHANGED cnt
+       /\ idSet' = idSet \ (Release(Ls \cup h, TRUE) \cup (IF ref /\ DEV_HangingFreesNamedIds THEN named ELSE {}))
        /\ act' = Act("remove_lanelet", q, IF ref THEN 1 ELSE 0, "ok")
        /\ Ref(chk, ExpRemoveLanelet(s, Ls, ref))
 
